@@ -2,6 +2,7 @@ package props
 
 import (
 	"fmt"
+	"math"
 	"sort"
 	"strings"
 
@@ -22,11 +23,11 @@ func init() {
 		Cases: func(tier string) int {
 			switch tier {
 			case "thorough":
-				return 80000
+				return 240000
 			case "race":
 				return 1500
 			}
-			return 10000
+			return 30000
 		},
 		Run:            c02Run,
 		Floor:          func(tier string) int { return 500 },
@@ -64,6 +65,23 @@ func c02Run(c *Ctx) {
 			c.Skip("no valid request")
 			return
 		}
+		if r.Chance(0.5) {
+			// special values (NaN, infinities, signed zero, extremes) in the float operands: the
+			// freshly loaded model is the reference, whatever the operator makes of them
+			for i, in := range req.Inputs {
+				if in == nil || !(in.DT == ref.F32 || in.DT == ref.F64) || len(in.Bits) == 0 {
+					continue
+				}
+				salted := in.Clone()
+				for k := r.Range(1, 2); k > 0; k-- {
+					salted.Bits[r.Intn(len(salted.Bits))] = r.SpecialBits(in.DT)
+					if r.Chance(0.4) {
+						salted.Bits[r.Intn(len(salted.Bits))] = ref.EncF(in.DT, math.NaN())
+					}
+				}
+				req.Inputs[i] = salted
+			}
+		}
 		spec = specFromOpReq(r, req, r.U64())
 		desc = trunc(req.Describe(), 400)
 	} else {
@@ -96,10 +114,11 @@ func c02Run(c *Ctx) {
 	var prevOut gonnx.Tensors
 	var prevFeed map[string]*ref.T
 	var actions []string
+	returned := map[tensor.Tensor]bool{} // tensor objects a Run returned (never written by the harness)
 	interesting := false
 	succeeded := false
 	for step := 0; step < steps; step++ {
-		action := r.PickStr("fresh", "same-values", "same-objects", "feedback", "batch", "fail-validation", "fail-node", "misshapen", "fresh")
+		action := r.PickStr("fresh", "same-values", "same-objects", "refilled-objects", "feedback", "batch", "fail-validation", "fail-node", "misshapen", "fresh")
 		feed := spec.Feed(r, 0)
 		in := gonnx.Tensors{}
 		expectFail := false
@@ -110,6 +129,26 @@ func c02Run(c *Ctx) {
 		case action == "same-objects" && prevIn != nil:
 			feed = prevFeed
 			in = prevIn
+		case action == "refilled-objects" && prevIn != nil:
+			// the caller keeps its input tensors and writes the next values into them: the Run
+			// must see the new contents (nothing may be remembered per tensor object)
+			feed = map[string]*ref.T{}
+			in = prevIn
+			for k, v := range prevFeed {
+				feed[k] = v
+				if !v.DT.IsFloat() || len(v.Bits) == 0 || returned[prevIn[k]] {
+					continue // index / shape parameters keep their values; fed-back results are not the caller's to write
+				}
+				nv := uniformT(r, v.DT, v.Shape, 2)
+				if mon.Overwrite(prevIn[k], nv) {
+					feed[k] = nv
+					for i := range all {
+						if all[i].t == prevIn[k] {
+							all[i].fp = mon.Fp(prevIn[k])
+						}
+					}
+				}
+			}
 		case action == "feedback" && prevOut != nil:
 			// feed an output tensor object of the previous Run back as an input of matching shape
 			fed := false
@@ -306,6 +345,9 @@ func c02Run(c *Ctx) {
 		}
 		if len(m.VerifParameters()) != len(weights) {
 			c.Violation("history:weight-set-changed", "the model has %d weights after step %d, %d after loading", len(m.VerifParameters()), step, len(weights))
+		}
+		for _, t := range out {
+			returned[t] = true
 		}
 		if o.Kind == mon.Value && !expectFail {
 			prevIn, prevOut, prevFeed = in, out, feed
